@@ -577,6 +577,62 @@ pub(crate) trait RegionHandler {
     fn rx1_dr_offset_validate(&self, value: u8) -> Option<u8>;
 }
 
+#[cfg(lora_rs_verif)]
+impl Configuration {
+    /// verification hook (read-only): a plain-text dump of the channel-plan state
+    pub fn verif_snapshot(&self) -> std::string::String {
+        use std::format;
+        macro_rules! dynp {
+            ($s:expr) => {{
+                let (ch, mask) = $s.verif_snapshot();
+                let chs: std::vec::Vec<std::string::String> = ch
+                    .iter()
+                    .map(|c| match c {
+                        None => "-".into(),
+                        Some((f, dr, dl)) => format!("{}/{}/{}", f, dr, dl.map(|x| x as i64).unwrap_or(-1)),
+                    })
+                    .collect();
+                format!("dyn ch={} mask={:02x?}", chs.join(","), mask)
+            }};
+        }
+        macro_rules! fixp {
+            ($s:expr) => {{
+                let (mask, jc) = $s.0.verif_snapshot();
+                format!(
+                    "fix mask={:02x?} jc={},{},{},{:02x?},{},{}",
+                    mask,
+                    jc.0,
+                    jc.1,
+                    jc.2.map(|x| x as i64).unwrap_or(-1),
+                    jc.3,
+                    jc.4.map(|x| x as i64).unwrap_or(-1),
+                    jc.5
+                )
+            }};
+        }
+        match &self.state {
+            #[cfg(feature = "region-as923-1")]
+            State::AS923_1(s) => dynp!(s),
+            #[cfg(feature = "region-as923-2")]
+            State::AS923_2(s) => dynp!(s),
+            #[cfg(feature = "region-as923-3")]
+            State::AS923_3(s) => dynp!(s),
+            #[cfg(feature = "region-as923-4")]
+            State::AS923_4(s) => dynp!(s),
+            #[cfg(feature = "region-au915")]
+            State::AU915(s) => fixp!(s),
+            #[cfg(feature = "region-eu868")]
+            State::EU868(s) => dynp!(s),
+            #[cfg(feature = "region-eu433")]
+            State::EU433(s) => dynp!(s),
+            #[cfg(feature = "region-in865")]
+            State::IN865(s) => dynp!(s),
+            #[cfg(feature = "region-us915")]
+            State::US915(s) => fixp!(s),
+        }
+    }
+}
+
 #[cfg(test)]
 mod tests {
     use super::*;
